@@ -40,13 +40,9 @@ not_applicable = [
 ]
 
 pending = {
-    "_C02": "check under construction in this session (WEB/IdP family)",
     "C05": "check under construction in this session (AUTH family)",
     "C10": "check under construction in this session (HOSTILE family)",
-    "_C12": "check under construction in this session (WEB family)",
-    "_C13": "check under construction in this session (WEB family)",
     "C14": "check under construction in this session (AUTH family)",
-    "_C15": "check under construction in this session (WEB family)",
     "C18": "check under construction in this session (BOOT family)",
     "C20": "check under construction in this session (KDC family)",
 }
